@@ -352,6 +352,10 @@ def oracle(pystog, case, res):
                 return "%s: attribute is %r, expected %r (kwargs %s)" % (names[i], a[i], float(w), json.dumps(res["kwargs"], default=str)[:300])
         if a[10] and a[11] != v["cutoff"]:
             return "FourierFilter.Cutoff value not stored"
+        Yg = (v["Y"] or {}) if p["merge"] else {}
+        if a[16] != float(Yg.get("Scale", 1.0)) or a[17] != float(Yg.get("Offset", 0.0)):
+            return "Merging.Y: scale/offset in effect are (%r, %r), expected (%r, %r) (kwargs %s)" % (
+                a[16], a[17], float(Yg.get("Scale", 1.0)), float(Yg.get("Offset", 0.0)), json.dumps(res["kwargs"], default=str)[:300])
         dr = np.array(res["dr"])
         rmin, rdelta = a[2], a[4]
         if len(dr) == 0 or dr[0] != rmin:
